@@ -22,9 +22,11 @@ def main():
              hooks=dict(guard='SCPI_PARSER_VERIF', enable='harness drivers are compiled together with /repo/libscpi/src/*.c with -DSCPI_PARSER_VERIF (run/lib.py build())',
                         baseline_off_cmd='sh /verif/run/baseline_off.sh', source_commits=hooks_commits, add_only=True),
              engines=[
-               dict(name='tlc-mc', path='spec/', serves_properties=sorted(CHECKS), kind_free_text='TLC model checking of the TLA+ specification modules on bounded configurations'),
-               dict(name='tlc-trace', path='spec/TV*.tla', serves_properties=sorted(CHECKS), kind_free_text='TLC validation of transitions / traces recorded from the real library against the specification'),
-               dict(name='explore', path='harness/', serves_properties=sorted(CHECKS), kind_free_text='C drivers (ASan+UBSan) that explore / walk the real library and record transitions'),
+               dict(name='tlc-mc', path='spec/MC*.tla spec/MC*.cfg', serves_properties=sorted(CHECKS), kind_free_text='TLC model checking of the TLA+ specification modules (spec/Scpi*.tla) on bounded configurations: invariants, action properties and lemmas of the specification itself'),
+               dict(name='tlc-gen', path='spec/Gen*.tla', serves_properties=['C01', 'C02', 'C03', 'C04', 'C05', 'C06', 'C08', 'C09', 'C11', 'C12', 'C13', 'C17'], kind_free_text='TLC enumerates scenarios / cases / operation alphabets from the specification (Init enumerations with lemmas as invariants) and emits them as ndjson for the drivers'),
+               dict(name='harness', path='harness/', serves_properties=sorted(CHECKS), kind_free_text='C drivers compiled with /repo working tree (-DSCPI_PARSER_VERIF, ASan+UBSan): scripted handlers, state-graph exploration with snapshot/restore, random walks, wrapped allocators, tracer for the repository test programs'),
+               dict(name='tlc-trace', path='spec/TV*.tla', serves_properties=sorted(CHECKS), kind_free_text='TLC validation of recorded executions / transitions of the real library against the specification (one initial state per record, mismatches printed from an invariant)'),
+               dict(name='explore', path='harness/drv_status.c harness/drv_errq.c harness/drv_heap.c', serves_properties=['C10', 'C11', 'C12', 'C20'], kind_free_text='breadth-first exploration of the implementation state graph over the model alphabets'),
              ],
              checks=[], not_applicable=[],
              notes='One orchestrator: python3 run/check.py <id> --tier quick|thorough. Known findings: known_findings.json. Design: DESIGN.md.')
